@@ -202,6 +202,8 @@ func runC10On(e *vlib.Env, t vlib.Target, stats *vlib.Stats) (bool, []string, er
 		switch {
 		case st.Op.Body != nil:
 			want, why = 400, "malformed body ("+st.Op.Body.Kind+")"
+		case len(buildBody(st.Req.Old, st.Req.Proof, st.Req.Cp, "")) > 16*1024:
+			want, why = 400, "body over the 16 KiB cap"
 		case !bytes.Contains(st.Req.Cp, []byte("\n")):
 			want, why = 400, "checkpoint without newline"
 		case named < 0:
